@@ -97,6 +97,19 @@ var Templates = []Template{
 	{"swap-vars", "res", `{a=use R} <-> {b=use R}`},
 	{"swap-elem", "res", `{c=use RA}[0] <-> {a=use R}`},
 	{"cond-destroy", "res control", `if x > 0 { destroy {a=take R} } else { C.sink(<- {a}) }`},
+	// --- functions with conditions inherited from an interface (implemented in R) or interface default functions,
+	//     taking resource-kinded arguments that are moved in
+	{"take-r", "res iface", `x = x + {a=use R}.takeR(<- {b=take R})`},
+	{"take-opt", "res iface", `x = x + {a=use R}.takeOpt(<- {p=take RO})`},
+	{"take-opt-wrap", "res iface", `x = x + {a=use R}.takeOpt(<- {b=take R})`},
+	{"take-arr", "res iface", `x = x + {a=use R}.takeArr(<- {c=take RA})`},
+	{"take-dict", "res iface", `x = x + {a=use R}.takeDict(<- {c=take RD})`},
+	{"eat-r", "res iface", `x = x + {a=use R}.eatR(<- {b=take R})`},
+	{"eat-opt", "res iface", `x = x + {a=use R}.eatOpt(<- {p=take RO})`},
+	{"eat-arr", "res iface", `x = x + {a=use R}.eatArr(<- {c=take RA})`},
+	{"eat-dict", "res iface", `x = x + {a=use R}.eatDict(<- {c=take RD})`},
+	{"ref-take-arr", "ref res iface", `x = x + refs[0].takeArr(<- {c=take RA})`},
+	{"ref-eat-opt", "ref res iface", `x = x + refs[1].eatOpt(<- {p=take RO})`},
 	// --- nested resources
 	{"swap-child", "res nested", `destroy {a=use R}.swapChild(<- C.mkChild(7))`},
 	{"add-kid", "res nested", `{a=use R}.addKid(<- C.mkChild(8))`},
